@@ -24,12 +24,35 @@ RULE = (
     "operation declares `default`; distinct by construction within a case."
 )
 ASSUMPTIONS = [
-    "the error body is a small JSON object; nothing is asserted about the exception message",
+    "the full status sweep uses a small JSON object body; 9 body shapes (object/array/string/number/null JSON, text, empty, invalid JSON, html) are swept for the declared statuses and 7 fixed ones; nothing is asserted about the exception message",
     "operations are attributed to methods by the request they issue (pbt/drive.py discover); packages that do not import are skipped",
 ]
 MIN_NONTRIVIAL = {"quick": 2000, "thorough": 20000}
 valid_case = specgen.valid_case
 STATUSES = [s for s in range(100, 600) if not 200 <= s <= 299]
+
+
+BODY_SHAPES = ["object", "array", "string", "number", "null", "text", "empty", "invalid_json", "html"]
+
+
+def _response(httpx, status: int, shape: str):
+    if shape == "object":
+        return httpx.Response(status, json={"error": "e", "code": status})
+    if shape == "array":
+        return httpx.Response(status, json=[{"msg": "e"}, 1])
+    if shape == "string":
+        return httpx.Response(status, json="failure")
+    if shape == "number":
+        return httpx.Response(status, json=42)
+    if shape == "null":
+        return httpx.Response(status, content=b"null", headers={"content-type": "application/json"})
+    if shape == "text":
+        return httpx.Response(status, text="plain failure")
+    if shape == "empty":
+        return httpx.Response(status)
+    if shape == "invalid_json":
+        return httpx.Response(status, content=b"{not json", headers={"content-type": "application/json"})
+    return httpx.Response(status, content=b"<html><body>Bad Gateway</body></html>", headers={"content-type": "text/html; charset=latin-1"})
 
 
 def _range(status: int) -> str:
@@ -56,8 +79,10 @@ def check(res: genrun.GenResult, case: dict, statuses=STATUSES) -> tuple[list[Vi
                 bodyish = [n for n in kw if s._is_body_like(n)]
                 for n in bodyish[1:]:
                     kw.pop(n, None)
-                for status in statuses:
-                    s.responder = lambda request, status=status: httpx.Response(status, json={"error": "e", "code": status})
+                sample_statuses = sorted({int(c) for c in declared if c.isdigit() and not 200 <= int(c) <= 299} | {101, 302, 400, 404, 418, 500, 503})
+                plan = [(st_, "object") for st_ in statuses] + [(st_, shape) for st_ in sample_statuses for shape in BODY_SHAPES if shape != "object"]
+                for status, shape in plan:
+                    s.responder = lambda request, status=status, shape=shape: _response(httpx, status, shape)
                     out = s.call(fn, kw)
                     if not out.requests and isinstance(out.exc, TypeError):
                         break  # cannot drive this method with probe arguments (C04 judges argument typing)
@@ -80,6 +105,8 @@ def check(res: genrun.GenResult, case: dict, statuses=STATUSES) -> tuple[list[Vi
                         v = Violation(("4xx_not_client_error", dk, transport), f"{m} {p} status={status}: raised {type(e).__name__}")
                     elif 500 <= status <= 599 and not isinstance(e, ServerError):
                         v = Violation(("5xx_not_server_error", dk, transport), f"{m} {p} status={status}: raised {type(e).__name__}")
+                    if v is not None and shape != "object":
+                        v = Violation(v.sig + ("body_" + shape,), v.detail + f" body_shape={shape}")
                     if v is not None and v.sig not in viols:
                         viols[v.sig] = v
     return list(viols.values()), ev, nt
